@@ -269,10 +269,31 @@ class Interp:
         try:
             self.exec_block(fv.node.body, env, ctx)
         except _Return as r:
-            return r.value
+            return self._memoized(fv, r.value, ctx)
         finally:
             self.current.pop()
         return None
+
+    def _memoized(self, fv, value, ctx):
+        """The value returned by a function decorated with functools.lru_cache / functools.cache is *shared* by every
+        later call with equal arguments: an array in it is not memory allocated in the current call, and an in-place
+        write to it corrupts the cache (frame rule)."""
+        decos = [ast.unparse(d) for d in getattr(fv.node, "decorator_list", [])]
+        if not any("lru_cache" in d or d.split(".")[-1].split("(")[0] == "cache" for d in decos):
+            return value
+        tag = frozenset([f"cache:{fv.qualname or fv.node.name}"])
+
+        def mark(v):
+            from .values import SArr as _SArr, Qty as _Qty
+            if isinstance(v, _SArr):
+                return _SArr(v.shape, v.elem, v.dtype, v.backend, owner=tag)
+            if isinstance(v, _Qty) and isinstance(v.val, _SArr):
+                return _Qty(mark(v.val), v.dim, v.unit, v.cls)
+            if isinstance(v, tuple):
+                return tuple(mark(x) for x in v)
+            return v
+        ctx.note("model: lru_cache'd results are shared objects (writes to them are frame violations)")
+        return mark(value)
 
     def call(self, f, args, kwargs, ctx):
         if isinstance(f, Stub):
